@@ -55,6 +55,8 @@ structure FloatAlg (F : Type) where
   /-- `x as i64` (truncating, saturating, NaN ↦ 0) -/
   toInt : F → Int
   lt : F → F → Bool
+  /-- `f64::partial_cmp` -/
+  partialCmp : F → F → Option Ordering
   eqZero : F → Bool
   /-- `is_sign_negative` -/
   signNeg : F → Bool
@@ -81,6 +83,9 @@ structure Lawful {F : Type} (alg : FloatAlg F) : Prop where
   div_count_finite : ∀ x (n : Nat), Finite alg x → 1 ≤ n → n ≤ 2 ^ 64 →
     Finite alg (alg.div x (alg.ofInt n))
   pi_finite : Finite alg alg.pi
+  /-- `partial_cmp` is `None` only if an operand is NaN -/
+  partialCmp_some : ∀ x y, alg.isNaN x = false → alg.isNaN y = false →
+    (alg.partialCmp x y).isSome = true
 
 inductive Err where
   | numberNan | numberOverflow | divByZero | notBitwiseSafe | shiftByNegative
@@ -99,6 +104,11 @@ def gate {F : Type} (alg : FloatAlg F) (x : F) : Except Err F :=
 /-- `if !number.is_finite() { return Err(NumberOverflow) }` -/
 def finiteCheck {F : Type} (alg : FloatAlg F) (x : F) : Except Err F :=
   if !alg.isNaN x && !alg.isInf x then .ok x else .error .numberOverflow
+
+/-- Outcome of `lhs.partial_cmp(&rhs).unwrap()` in `State::CompareValue` (mod.rs):
+    `none` models the panic of `unwrap` on `None`. -/
+def compareNumbers {F : Type} (alg : FloatAlg F) (x y : F) : Option Ordering :=
+  alg.partialCmp x y
 
 /-! ### 64-bit integer helpers (two's complement) -/
 
@@ -141,7 +151,7 @@ inductive Producer where
   | parseDec (neg : Bool) (n : Nat) (e : Int)  -- parseInt / parseJson / parseYaml decimal
   | parseRadix (radix : Nat) (text : List Char)  -- parseOctal / parseHex / YAML 0o 0x
   | pi
-deriving Repr
+deriving Repr, DecidableEq
 
 def sumLoop {F : Type} (alg : FloatAlg F) : F → List F → Except Err F
   | acc, [] => .ok acc
@@ -323,6 +333,20 @@ def siteGated : List String :=
    "log2", "log10", "sqrt", "sin", "cos", "tan", "asin", "acos", "atan", "deg2rad", "rad2deg",
    "sum", "literal"]
 
+/-- Name of a producer in `producerNames`. -/
+def Producer.name : Producer → String
+  | .add => "add" | .sub => "sub" | .mul => "mul" | .div => "div" | .rem => "rem"
+  | .shl => "shl" | .shr => "shr" | .band => "band" | .bor => "bor" | .bxor => "bxor"
+  | .neg => "neg" | .pos => "pos" | .bnot => "bnot" | .modulo => "modulo" | .mod => "mod"
+  | .pow => "pow" | .atan2 => "atan2" | .hypot => "hypot" | .exp => "exp" | .log => "log"
+  | .log2 => "log2" | .log10 => "log10" | .sqrt => "sqrt" | .sin => "sin" | .cos => "cos"
+  | .tan => "tan" | .asin => "asin" | .acos => "acos" | .atan => "atan"
+  | .deg2rad => "deg2rad" | .rad2deg => "rad2deg" | .floor => "floor" | .ceil => "ceil"
+  | .mantissa => "mantissa" | .exponent => "exponent" | .sum => "sum" | .avg => "avg"
+  | .abs => "abs" | .sign => "sign" | .max => "max" | .min => "min" | .clamp => "clamp"
+  | .round => "round" | .intConv _ => "intConv" | .literal _ _ => "literal"
+  | .parseDec _ _ _ => "parseDec" | .parseRadix _ _ => "parseRadix" | .pi => "pi"
+
 def producerOfName (s : String) : Option Producer :=
   match s with
   | "add" => some .add | "sub" => some .sub | "mul" => some .mul | "div" => some .div
@@ -456,6 +480,8 @@ def floatAlg : FloatAlg Float where
   ofDec := fun neg n e => ofBitsNat (ofDecBits neg n e)
   toInt := fun x => toIntBits (bitsOf x)
   lt := fun x y => x < y
+  partialCmp := fun x y =>
+    if x < y then some .lt else if x == y then some .eq else if y < x then some .gt else none
   eqZero := fun x => x == 0
   signNeg := fun x => bitsOf x / SIGN_BIT = 1
   isNaN := Float.isNaN
